@@ -21,7 +21,7 @@
    The document is rebuilt from the abstract lines with Groups!Deliver, every
    answer is recomputed with the operators of Groups.tla.  Acceptance is
    relational (Groups.tla, "relaxed reading"): a walk is accepted iff it is an
-   outcome of some defensible reading, an error iff some reading has an error;
+   outcome of some defensible reading, an error iff some reading has no walk;
    WHICH gfapy.Error class is raised and WHEN (on add_line, on the query, in
    validate) is free.  Clauses:
      C17.items   items after a line differ from the concatenation in arrival
@@ -99,9 +99,9 @@ Run(ev, k, D) ==
 -----------------------------------------------------------------------------
 (* the queries on the final document *)
 PathFails(D, q) ==
-  LET outs == Outcomes(D, q.id)
-      walks == {r.w : r \in {x \in outs : x.ok}}
-      mayfail == \E r \in outs : ~r.ok
+  LET B == ByReading(D, q.id)
+      walks == WalksIn(B)
+      mayfail == MayFailIn(B)
       A == IF q.a.r = "FOREIGN" THEN {"foreign"}
            ELSE IF q.a.r = "ok" THEN
              (IF Refs(q.a.w) \in walks THEN {}
@@ -138,7 +138,7 @@ QueryFails(D, q) ==
 \* validate() may complain exactly when some group does not resolve
 GroupIdsOf(D) == {D[i].name : i \in {j \in DOMAIN D : D[j].rt \in {"O", "U"}}}
 Resolves(D, id) ==
-  IF LineNamed(D, id).rt = "O" THEN \A r \in Outcomes(D, id) : r.ok
+  IF LineNamed(D, id).rt = "O" THEN ~PathMayFail(D, id)
   ELSE ~SetMayFail(D, id)
 ValFails(D, v) ==
   IF v = "FOREIGN" THEN {"foreign"}
@@ -169,11 +169,10 @@ Explain(c) ==
      LET id == c.q[i].id
          rt == LineNamed(D, id).rt IN
      IF rt = "O" THEN
-       LET cp == CapturedPath(D, id)
-           outs == Outcomes(D, id) IN
+       LET cp == CapturedPath(D, id) IN
        <<id, "strict reading:", IF cp.ok THEN WalkText(cp.walk) ELSE <<cp.kind>>,
-         "also accepted:", {WalkText(r.w) : r \in {x \in outs : x.ok}},
-         IF \E r \in outs : ~r.ok THEN "or a gfapy.Error" ELSE "no error">>
+         "also accepted:", {WalkText(w) : w \in PathWalks(D, id)},
+         IF PathMayFail(D, id) THEN "or a gfapy.Error" ELSE "no error">>
      ELSE IF rt = "U" THEN
        <<id, "segments:", SegsMentioned(D, id), "edges:", EdgesWithin(D, SegsMentioned(D, id)),
          IF SetMayFail(D, id) THEN "or a gfapy.Error" ELSE "no error",
